@@ -92,6 +92,37 @@ Proof.
     rewrite !plain_map_to_u. exact Hf.
 Qed.
 
+(* the aliases ('should not import / be imported by anything'): an absent subject is an error as well, also when the
+   alias rewrite removes it from the list because its parent is listed too (fix D23) *)
+Lemma in_plain_inv (Ss : list (@ufilt comp)) f : In f (plain Ss) -> In (to_u f) Ss.
+Proof.
+  unfold plain. intros H. apply in_flat_map in H. destruct H as [u [Hu Hf]].
+  destruct u as [n|n|r]; cbn in Hf; try (destruct Hf as [<-|[]]; exact Hu). destruct Hf.
+Qed.
+
+Lemma in_plain_intro (Ss : list (@ufilt comp)) f : In (to_u f) Ss -> In f (plain Ss).
+Proof.
+  unfold plain. intros H. apply in_flat_map. exists (to_u f). split; [exact H|]. destruct f; left; reflexivity.
+Qed.
+
+Theorem alias_unknown_name_is_error g imp (Ss : list (@ufilt comp)) f :
+  In f (plain Ss) -> exists_f ceqb g f = false ->
+  is_verdict (V g (any_cfg imp Ss)) = false.
+Proof.
+  intros Hf Hm. unfold AlgebraProofs.V.
+  destruct (removed_unknown ceqb g Ss) eqn:R.
+  - destruct (alias_removed_unknown ceqb rmatch g imp Ss R) as [e He]. rewrite He. reflexivity.
+  - rewrite (alias_anything ceqb rmatch g imp Ss R).
+    apply (unknown_name_is_error ceqb ceqb_spec rmatch g ShouldNot imp true _ _ f); [|exact Hm].
+    apply in_or_app. left. apply in_plain_intro. apply in_plain_inv in Hf.
+    unfold drop_children. apply filter_In. split; [exact Hf|]. apply negb_true_iff.
+    destruct (has_listed_ancestor ceqb Ss (to_u f)) eqn:HA; [exfalso|reflexivity].
+    apply not_true_iff_false in R. apply R. unfold removed_unknown. apply existsb_exists.
+    exists (to_u f). split; [exact Hf|]. rewrite HA. cbn [andb].
+    assert (Eu : uname (to_u f) = Some (fid f)) by (destruct f; reflexivity). rewrite Eu.
+    unfold exists_f in Hm. rewrite Hm. reflexivity.
+Qed.
+
 (* C15: the outcome class does not depend on listing order / duplication, nor on the order of modules and imports *)
 Theorem class_order_independent g g' v imp exc (ss ss' os os' : list filt) :
   graph_equiv g g' -> leq ss ss' -> leq os os' -> ss <> [] -> os <> [] ->
